@@ -1,6 +1,7 @@
 import TsVerif.C19.Lemmas
 import TsVerif.C19.Liveness
 import TsVerif.C19.Judge
+import TsVerif.C19.Timed
 /-!
 # C19 — Grammar loading is safe under concurrency and after crashes
 
@@ -21,6 +22,8 @@ interleaving of the atomic steps, a crash possible before every step).
 | after a crash later loads still succeed … | **refuted for the unchanged tree:** `stale_lock_never_recovers`, `crash_while_holding_is_permanent`, `leftover_lock_is_stuck`; witness that the repaired protocol recovers: `recheck_recovers_example` |
 | … within bounded time | `bounded_termination` + `wait_free` (unchanged tree: every caller finishes within `K + 7` own steps, whatever the others do); `no_orphan_lock`, `judge_orphan_of_model` (both variants: a caller that returns never leaves its lock behind, so later loads do not have to wait out the timeout unless somebody died) |
 | … and never load a stale or truncated library | `safety` + `no_partial` hold in every reachable state, crashes included |
+| the whole property in one statement (any N, any scheduler incl. crash placement) | `c19_full_strength`, `liveness_with_crashes` |
+| `needs_recompile` = strict `>` on exact mtimes over every source | `needs_recompile_exact`, `check_is_exact_test`, `wellTimed_after_build` (Timed.lean); refuted for whole seconds: `whole_seconds_misses_same_second` |
 
 The recovery clause is **proved for the committed protocol** (`Variant.recheck`, the default since
 /repo 8957f32): `recheck_bounded` (every execution, crashes included, has at most `mu c s` steps —
@@ -35,7 +38,8 @@ OPEN: `liveness_ok` for `orig` (no timeouts under holder progress) — moot sinc
 Boundary conventions: "current sources" = the version of the whole source set on disk (parser.c,
 scanner.c, external files: one number encodes the tuple; the real runs vary parser.c and scanner.c
 independently, with and without an external scanner), constant during a run;
-`needs_recompile`'s mtime comparison is abstracted to version inequality; time is abstract
+`needs_recompile`'s mtime comparison is abstracted to version inequality in the transition system and
+justified for exact timestamps in Timed.lean under the clock discipline `WellTimed`; time is abstract
 (a waiter gives up at its `K`-th unsuccessful poll).
 -/
 namespace TsVerif.C19
@@ -516,5 +520,123 @@ example : (run { K := 1, mayFail := false } (mkInit 2 (some ⟨1, true⟩) true 
      (1, .check), (1, .tryLock), (1, .poll), (1, .poll), (1, .check), (1, .tryLock), (1, .compileBegin),
      (1, .compileFinish), (1, .rename), (1, .unlock), (1, .load)]).map (fun s => (s.procs.map (·.pc), s.lock))
     = some ([.dead, .done (.ok 2)], none) := by decide
+
+/-! ## Full strength: every interleaving, crashes at any point, safety and recovery in one statement -/
+
+theorem Reach.trans {c : Cfg} {s t u : State} (h1 : Reach c s t) (h2 : Reach c t u) : Reach c s u := by
+  induction h2 with
+  | refl => exact h1
+  | tail p a _ hs ih => exact Reach.tail p a ih hs
+
+/-- An execution in which crashes happen too: at tick `i` caller `(σ i).1` does `(σ i).2` — a protocol
+step or a crash — if that is enabled, otherwise nothing happens.  `σ` is arbitrary: it fixes the
+interleaving of any number of callers AND where who dies. -/
+def execC (c : Cfg) (s0 : State) (σ : Nat → Nat × Act) : Nat → State
+  | 0 => s0
+  | i + 1 => (step c (execC c s0 σ i) (σ i).1 (σ i).2).getD (execC c s0 σ i)
+
+theorem execC_reach (c : Cfg) (s0 : State) (σ : Nat → Nat × Act) : ∀ i, Reach c s0 (execC c s0 σ i) := by
+  intro i
+  induction i with
+  | zero => exact Reach.refl _
+  | succ i ih =>
+    simp only [execC]
+    cases h : step c (execC c s0 σ i) (σ i).1 (σ i).2 with
+    | none => simpa using ih
+    | some s' => simpa using Reach.tail _ _ ih h
+
+/-- Fairness for executions with crashes: as long as some live caller can still take a protocol step,
+some later tick changes the state (by a step or by a crash). -/
+def ProgressC (c : Cfg) (s0 : State) (σ : Nat → Nat × Act) : Prop :=
+  ∀ i, ¬ Quiescent c (execC c s0 σ i) → ∃ j, i ≤ j ∧ execC c s0 σ (j + 1) ≠ execC c s0 σ j
+
+theorem execC_mu_step (c : Cfg) (hv : c.variant = .recheck) (s0 : State) (σ : Nat → Nat × Act) (i : Nat) :
+    (execC c s0 σ (i + 1) = execC c s0 σ i) ∨ mu c (execC c s0 σ (i + 1)) < mu c (execC c s0 σ i) := by
+  simp only [execC]
+  cases h : step c (execC c s0 σ i) (σ i).1 (σ i).2 with
+  | none => exact Or.inl rfl
+  | some s' => exact Or.inr (by simpa using step_mu hv h)
+
+theorem execC_mu_mono (c : Cfg) (hv : c.variant = .recheck) (s0 : State) (σ : Nat → Nat × Act) (i : Nat) :
+    ∀ d, mu c (execC c s0 σ (i + d)) ≤ mu c (execC c s0 σ i) := by
+  intro d
+  induction d with
+  | zero => exact Nat.le_refl _
+  | succ d ih =>
+    rcases execC_mu_step c hv s0 σ (i + d) with h | h
+    · rw [← Nat.add_assoc, h]; exact ih
+    · rw [← Nat.add_assoc]; omega
+
+/-- Liveness with crashes anywhere: every fair execution becomes quiescent (the ranking function `mu`
+also decreases at a crash). -/
+theorem liveness_with_crashes (c : Cfg) (hv : c.variant = .recheck) (s0 : State) (σ : Nat → Nat × Act)
+    (hfair : ProgressC c s0 σ) : ∃ T, Quiescent c (execC c s0 σ T) := by
+  suffices h : ∀ m i, mu c (execC c s0 σ i) ≤ m → ∃ T, Quiescent c (execC c s0 σ T) from h _ 0 (Nat.le_refl _)
+  intro m
+  induction m with
+  | zero =>
+    intro i hm
+    refine ⟨i, ?_⟩
+    intro p a _
+    cases h : step c (execC c s0 σ i) p a with
+    | none => rfl
+    | some s' => have := step_mu hv h; omega
+  | succ m ih =>
+    intro i hm
+    by_cases hq : Quiescent c (execC c s0 σ i)
+    · exact ⟨i, hq⟩
+    · obtain ⟨j, hij, hne⟩ := hfair i hq
+      have hmono := execC_mu_mono c hv s0 σ i (j - i)
+      have hji : i + (j - i) = j := by omega
+      rw [hji] at hmono
+      rcases execC_mu_step c hv s0 σ j with h | h
+      · exact absurd h hne
+      · exact ih (j + 1) (by omega)
+
+/-- **C19 at full strength, for the committed protocol** (`recheck`: re-check after waiting, steal a
+lock that outlived the timeout).  For any number `N` of callers, any initial cache (library absent /
+stale / fresh, leftover lock of a dead process, leftover temp files), any scheduler `σ` — i.e. every
+interleaving and every placement of crashes —:
+
+* *safety, at every tick*: the file at the library path is never partially written; a caller that
+  is about to `dlopen` sees a library built from the current sources; a caller that has returned
+  success loaded the current version; nobody ever returns "partial library";
+* *recovery*: if the scheduler is fair, then after finitely many ticks nobody can move any more, and
+  then every caller that did not die itself has returned the current version — or the compile error,
+  when the sources do not compile.  No timeout, no missing file, no stale version. -/
+theorem c19_full_strength (c : Cfg) (hv : c.variant = .recheck) {s0 : State} (hi : Init s0)
+    (σ : Nat → Nat × Act) :
+    (∀ i, (∀ f, (execC c s0 σ i).lib = some f → f.complete = true) ∧
+      ∀ (p : Nat) (pr : Proc), (execC c s0 σ i).procs[p]? = some pr →
+        (∀ v, pr.pc = .done (.ok v) → v = s0.src) ∧
+        (pr.pc = .loading → Fresh s0.src (execC c s0 σ i).lib) ∧
+        pr.pc ≠ .done (.err .partialLib)) ∧
+    (ProgressC c s0 σ → ∃ T, Quiescent c (execC c s0 σ T) ∧
+      ∀ (p : Nat) (pr : Proc), (execC c s0 σ T).procs[p]? = some pr →
+        pr.pc = .dead ∨ pr.pc = .done (.ok s0.src) ∨ (pr.pc = .done (.err .compile) ∧ c.mayFail = true)) := by
+  refine ⟨?_, ?_⟩
+  · intro i
+    have hr := execC_reach c s0 σ i
+    have hnp := no_partial c hi hr
+    refine ⟨hnp.1, ?_⟩
+    intro p pr hp
+    have hs := safety c (Or.inr hv) hi hr p pr hp
+    refine ⟨fun v hv' => (hs.1 v hv').1, ?_, hnp.2.2 p pr hp⟩
+    intro hl
+    have := hs.2.1 hl
+    rwa [reach_src hr] at this
+  · intro hfair
+    obtain ⟨T, hq⟩ := liveness_with_crashes c hv s0 σ hfair
+    exact ⟨T, hq, fun p pr hp => recovery_recheck_failing c hv hi (execC_reach c s0 σ T) hq p pr hp⟩
+
+/-- Non-vacuity: a scheduler for two callers on "stale library + leftover lock" in which caller 0 dies
+while compiling; the execution is quiescent after 19 ticks and caller 1 holds the current version. -/
+example :
+    let σ : Nat → Nat × Act := fun i =>
+      ([(0, .check), (0, .tryLock), (0, .poll), (0, .poll), (0, .check), (0, .tryLock), (0, .compileBegin), (0, .crash),
+        (1, .check), (1, .tryLock), (1, .poll), (1, .poll), (1, .check), (1, .tryLock), (1, .compileBegin),
+        (1, .compileFinish), (1, .rename), (1, .unlock), (1, .load)] : List (Nat × Act)).getD i (0, .check)
+    ((execC { K := 1, mayFail := false } (mkInit 2 (some ⟨1, true⟩) true 2) σ 19).procs.map (·.pc)) = [.dead, .done (.ok 2)] := by
+  decide
 
 end TsVerif.C19
